@@ -20,6 +20,13 @@ PAIRS = {  # predicate -> accessor whose unwrap it justifies (same receiver plac
     "has_name": {"get_name"},
 }
 
+# dependency APIs that index an internal table with an id argument and panic when it is out of range:
+# name -> (path fragments, index of the id argument (receiver = 0), calls that hand out valid ids)
+DEP_INDEXING = {
+    "set_source_contents": (("sourcemap", "SourceMapBuilder"), 1, ("add_source",)),
+    "get_source_contents": (("SourceMapBuilder",), 1, ("add_source",)),
+}
+
 # reviewed obligations: (function name, callee name, receiver description) -> reason
 REVIEWED = {
     ("chain_source_maps", "unwrap", "call:from_utf8"): "the bytes were just written by sourcemap's JSON writer (serde_json): always valid UTF-8",
@@ -245,6 +252,8 @@ def rule_panic(check):
                     kind = "refcell"
                 elif name in ("index", "index_mut") and ("ops::Index" in path):
                     kind = "index-call"
+                elif name in DEP_INDEXING and any(w in path + ((n.get("callee") or {}).get("resolved") or "") for w in DEP_INDEXING[name][0]):
+                    kind = "dep-index"
             elif n.get("k") == "Index":
                 kind = "index"
             elif n.get("k") == "Binary" and n["op"] in ("Div", "Rem") and not n.get("callee"):
@@ -260,6 +269,13 @@ def rule_panic(check):
                 reason = discharge(prog, f, n, kind, pv)
             elif kind == "unchecked":
                 reason = _unchecked_ok(f, n)
+            elif kind == "dep-index":
+                # the id must be the very value the producing call of the same object returned
+                spec = DEP_INDEXING[name]
+                a_ = hir.call_args(n)
+                os_ = pv.origins(f, a_[spec[1]]) if len(a_) > spec[1] else set()
+                if os_ and all(r_[0] == "call" and r_[1].split("::")[-1] in spec[2] for r_, _p in os_):
+                    reason = "G14: the id was handed out by %s of the same builder" % "/".join(spec[2])
             if reason:
                 check.ok(R, key, hir.loc(n), "%s -- %s" % (rdesc, reason))
             else:
